@@ -509,7 +509,11 @@ func checkC16(c *ctx) {
 	pr := prog.NewRand(c.Seed, hashS("C16b-preamble"))
 	for i := range cfiles {
 		h := cfiles[i].header
-		switch pr.Intn(8) {
+		switch pr.Intn(10) {
+		case 8:
+			cfiles[i].header = "// Fixtures live in testdata/*.txt, see also docs/*/README.\n\n" + h
+		case 9:
+			cfiles[i].header = "// Copyright (c) the authors. /* not a block comment */\n//\n// More text.\n\n" + h
 		case 0:
 			cfiles[i].header = "// Copyright (c) the authors.\n// Licensed under the terms in LICENSE.\n\n" + h
 		case 1:
